@@ -5,13 +5,13 @@ and records which checks report it."""
 import json, os, shutil, subprocess, sys
 name, wt, k, checks = sys.argv[1], sys.argv[2], sys.argv[3], sys.argv[4].split(",")
 tier = sys.argv[5] if len(sys.argv) > 5 else "quick"
-src = "/tmp/wt_%s/_seed" % wt
+src = "%s%s/_seed" % (os.environ.get("WTPREFIX", "/tmp/wt_"), wt)
 dst = "/verif/seeded/%s" % name
 os.makedirs(dst, exist_ok=True)
 shutil.copy(os.path.join(src, "patch%s.diff" % k), os.path.join(dst, "patch.diff"))
 shutil.copy(os.path.join(src, "demo%s.py" % k), os.path.join(dst, "demo.py"))
 meta = json.load(open(os.path.join(src, "meta%s.json" % k)))
-conf = "/tmp/confirm_%s_%s.txt" % (wt, k)
+conf = "/tmp/confirm%s_%s_%s.txt" % (os.environ.get("CONFTAG", ""), wt, k)
 confirmed = open(conf).read().strip().splitlines() if os.path.exists(conf) else []
 if subprocess.run(["git", "-C", "/repo", "status", "--porcelain", "--untracked-files=no"], capture_output=True, text=True).stdout.strip():
     sys.exit("/repo not clean")
